@@ -1,10 +1,12 @@
 /-
   Props/C19Full.lean — the module audited for C19: Props/C19Curve.lean (and what it imports) together with
   Props/C19Ieee.lean (the IEEE / real-analysis instantiations), Props/C19IeeePos.lean, Props/C19IeeeBound.lean and
-  Props/C19IeeeErr.lean (rounding-error bounds of the positions and of the booked lengths). All in namespace Rosu.C19.
+  Props/C19IeeeErr.lean (rounding-error bounds of the positions and of the booked lengths) and Props/C19IeeeSearch.lean
+  (what `idx_of_dist` establishes on IEEE doubles, composed with the interpolation bound). All in namespace Rosu.C19.
 -/
 import RosuModel.Props.C19Curve
 import RosuModel.Props.C19Ieee
 import RosuModel.Props.C19IeeePos
 import RosuModel.Props.C19IeeeBound
 import RosuModel.Props.C19IeeeErr
+import RosuModel.Props.C19IeeeSearch
